@@ -261,6 +261,7 @@ def check_state(gf, m, after):
                 bad(clause, "non-empty paragraphs %r, expected %r at %s" % (got, want, where))
             if not paras:
                 bad("no-paragraph", "cell without a:p at %s" % where)
+    return api
 
 
 def check_created(gf, m, spec, req_w, req_h):
@@ -330,17 +331,17 @@ def apply_op(env, gfs, models, op, kinds):
             if verdict == "ok":
                 m.merge(r1, c1, r2, c2)
         kinds.append(cls)
+        obs = {}
         for t in sorted({t1, t2}):
-            check_state(gfs[t], models[t], cls)
+            obs[t] = check_state(gfs[t], models[t], cls)
         if verdict == "ok":
             # the merge itself leaves every spanned cell with exactly one empty paragraph
             t, l, b_, r_ = m.norm(r1, c1, r2, c2)
-            tb = gfs[t1].table
             for i in range(t, b_ + 1):
                 for j in range(l, r_ + 1):
                     if (i, j) == (t, l):
                         continue
-                    ps = [p.text for p in tb.cell(i, j).text_frame.paragraphs]
+                    ps = obs[t1][i * m.c + j][4]
                     if ps != [""]:
                         raise Violation("C14:spanned-not-emptied:after=merge-ok",
                                         "spanned cell (%d,%d) has paragraphs %r after merge" % (i, j, ps))
@@ -538,10 +539,15 @@ def run_create(job, tier, rec, known):
             continue
         for cols in dims:
             cases = []
-            for w in _sizes(cols, tier):
-                for h in _sizes(rows, tier):
-                    cases.append({"tables": [{"how": "add", "rows": rows, "cols": cols, "w": w, "h": h}],
-                                  "ops": []})
+            ws, hs = _sizes(cols, tier), _sizes(rows, tier)
+            if tier == "thorough":
+                pairs = [(w, h) for w in ws for h in hs]
+            else:  # the two axes are independent code paths: pair them up instead of the full product
+                k = max(len(ws), len(hs))
+                pairs = sorted({(ws[i % len(ws)], hs[(i + rows + cols) % len(hs)]) for i in range(k)})
+            for w, h in pairs:
+                cases.append({"tables": [{"how": "add", "rows": rows, "cols": cols, "w": w, "h": h}],
+                              "ops": []})
             for phw in [None] + _sizes(cols, tier):
                 cases.append({"tables": [{"how": "ph", "rows": rows, "cols": cols, "phw": phw}], "ops": []})
             for case in cases:
@@ -567,7 +573,7 @@ def run_create(job, tier, rec, known):
 
 def _bfs_jobs(tier):
     js = []
-    maxd = 4 if tier == "thorough" else 4
+    maxd = 4
     target = 60000 if tier == "thorough" else 6000
     for rows in range(1, maxd + 1):
         for cols in range(1, maxd + 1):
@@ -589,7 +595,7 @@ def jobs(tier):
         js.append({"kind": "create", "shard": s, "nshard": ncreate})
     nh = 32 if tier == "thorough" else 16
     for s in range(nh):
-        js.append({"kind": "hyp", "shard": s, "n": 4000 if tier == "thorough" else 250})
+        js.append({"kind": "hyp", "shard": s, "n": 3000 if tier == "thorough" else 500})
     # big jobs first
     js.sort(key=lambda j: {"bfs": 0, "hyp": 1, "create": 2}[j["kind"]])
     return js
